@@ -6,6 +6,9 @@ import (
 	"encoding/binary"
 	"errors"
 	"fmt"
+	"go/ast"
+	"go/parser"
+	"go/token"
 	"sort"
 	"strconv"
 	"strings"
@@ -280,7 +283,60 @@ func c08Op(ts *TrieState, alpha, op string) string {
 	return "bad-op"
 }
 
+// c08Ast checks, on the current source of lib/runtime/wazero/instance.go, that the exported
+// method `name` calls Storage.StartTransaction() before it calls Exec (block execution and block
+// initialisation always run inside a transaction).
+func c08Ast(name string) string {
+	fset := token.NewFileSet()
+	f, err := parser.ParseFile(fset, "../wazero/instance.go", nil, 0)
+	if err != nil {
+		return "no-source"
+	}
+	for _, d := range f.Decls {
+		fd, ok := d.(*ast.FuncDecl)
+		if !ok || fd.Recv == nil || fd.Name.Name != name || fd.Body == nil {
+			continue
+		}
+		start, exec := token.NoPos, token.NoPos
+		ast.Inspect(fd.Body, func(n ast.Node) bool {
+			call, ok := n.(*ast.CallExpr)
+			if !ok {
+				return true
+			}
+			sel, ok := call.Fun.(*ast.SelectorExpr)
+			if !ok {
+				return true
+			}
+			switch sel.Sel.Name {
+			case "StartTransaction":
+				if inner, ok := sel.X.(*ast.SelectorExpr); ok && inner.Sel.Name == "Storage" && start == token.NoPos {
+					start = call.Pos()
+				}
+			case "Exec":
+				if exec == token.NoPos {
+					exec = call.Pos()
+				}
+			}
+			return true
+		})
+		switch {
+		case start == token.NoPos:
+			return "no-start"
+		case exec == token.NoPos:
+			return "no-exec"
+		case start < exec:
+			return "start<exec"
+		default:
+			return "exec<start"
+		}
+	}
+	return "no-method"
+}
+
 func c08Run(line string) string {
+	if strings.HasPrefix(line, "ast ") {
+		return c08Ast(strings.TrimPrefix(line, "ast "))
+	}
 	hb := strings.SplitN(line, "|", 2)
 	if len(hb) != 2 || len(hb[0]) != 1 || hb[0][0] < '0' || hb[0][0] > '3' {
 		return "bad-op"
